@@ -312,6 +312,22 @@ theorem text_roundtrip_blanks (b : Block) (hok : b.Ok table) (hlex : LexemesOk b
   rw [Pyx.OalText.withSeps_blanks] at this
   exact this
 
+/-- the function the driver runs on the harness's texts (`parseText`, PyxModel/Oal/Text.lean: lexer model, conversion by
+    the `Kind.name` table, parser model) IS the composition `text_roundtrip` is stated about -/
+theorem driver_text_parser (text : List Char) :
+    Pyx.OalText.parseText text = parseStmts table (Pyx.OalLex.toParserToks (Pyx.OalLex.lex text)) :=
+  Pyx.OalText.parseText_eq text
+
+open Pyx.OalText (inDomain unitsOf unitSeps withSeps ofLexTok) in
+/-- the domain test the driver reports for every generated text (`inDomain`: tokens, layout before the first token,
+    gaps after the tokens) implies the hypotheses of the layout theorem — on such a text the lexer model followed by
+    the conversion returns exactly the written tokens -/
+theorem driver_domain_sound (ts : List Tok) (sep0 : List Char) (gaps : List (List Char))
+    (h : inDomain ts sep0 gaps = (true, true)) :
+    ∃ us seps, unitsOf ts = some us ∧ unitSeps us gaps = some seps ∧
+      (Pyx.OalLex.lex (sep0 ++ Pyx.OalLex.renderT (withSeps us seps))).map ofLexTok = ts :=
+  Pyx.OalText.inDomain_lex ts sep0 gaps h
+
 /-! ## non-vacuity: concrete instances of the hypotheses, and what the theorems then say -/
 
 section examples
@@ -487,6 +503,12 @@ example : parseStmts table (Pyx.OalLex.toParserToks (Pyx.OalLex.lex "x=a+b*(c-1)
     (Pyx.OalText.pairOkB_sound _ hp)
   rw [ht] at this
   exact this
+-- driver_domain_sound: `x = a/*c*/+b ;// d\n` is in the domain (comment glued to both neighbours, tight `+`)
+example : Pyx.OalText.inDomain [nm "x", tk .EQUAL "=", nm "a", plus, nm "b", semi] []
+    [" ".toList, " ".toList, "/*c*/".toList, [], " ".toList, "// d\n".toList] = (true, true) := by decide +kernel
+-- `a/ /b` is not (a `/` token directly followed by a comment start would be swallowed), nor is `1x` (number glued to a word)
+example : (Pyx.OalText.inDomain [nm "a", tk .DIV "/", nm "b"] [] [[], "//c\n".toList, []]).2 = false := by decide +kernel
+example : (Pyx.OalText.inDomain [tk .NUMBER "1", nm "x"] [] [[], []]).2 = false := by decide +kernel
 -- an identifier spelled `end` is outside `LexemesOk` (the lexer reads `end if` as ONE token)
 example : ¬ Pyx.OalText.LexemesOk (.cons (.assign false (.var (nm "end")) (.int "1")) .nil) := by decide +kernel
 
